@@ -83,7 +83,7 @@ prop('C18', level='proof', design_ref='DESIGN.md section 6 (C18)',
           'non-fault attempt, raises a genuine RPC error at once, fails over round-robin, and terminates.',
      note='Trusted: T-HTTP (an attempt returns the reply or raises a listed class), T-DAEMON (reply shapes), floats as reals.',
      explanation='Ghost fault script; termination by decreases q - p.',
-     not_decided=['_get_to_file (file truncation per attempt) and the batch processor of _send_vector are not under contract yet'],
+     not_decided=['termination of the three `while True ... sleep` retry loops outside a finite fault script'],
      assumptions=[])
 
 prop('C15', level='other', design_ref='DESIGN.md section 6 (C15)',
@@ -136,7 +136,8 @@ prop('C02', level='other', design_ref='DESIGN.md section 6 (C02)',
                'what': 'every script hash history (all limits) and tx-number -> (hash, height) equal the clean index',
                'bound': '10 (thorough: 60) generated chains of 3-13 blocks x random history-only/full flush schedule x chunk '
                         'sizes {90, 200, 1000, 25M} x restart'}],
-     not_decided=['History.add_unflushed / flush / advance_block history clause not under deductive contract yet'],
+     not_decided=['the history clause of advance_block (which script hashes a transaction touches) is not under deductive contract; '
+                  'add_unflushed, flush, get_txnums, fs_tx_hash, fs_tx_hashes_at_blockheight are'],
      assumptions=[])
 
 prop('C10', level='other', design_ref='DESIGN.md section 6 (C10)',
@@ -146,7 +147,7 @@ prop('C10', level='other', design_ref='DESIGN.md section 6 (C10)',
           'cache coherence (C17).  Quiescence over all interleavings is not decided by contracts.',
      note='Components only: the end-to-end statement quantifies over schedules of five tasks (A-FIFO assumed).',
      explanation='Component obligations; composition written, not mechanised.',
-     not_decided=['whole-system interleavings; by-height caches epoch argument (tx_hashes_at_blockheight) not yet under contract',
+     not_decided=['whole-system interleavings (the window between a reorganisation and the run of the reorg handler is assumed away: A-RELY-REORG)',
                   'retry loops of DB.limited_history / all_utxos (termination)'],
      assumptions=['A-FIFO: the task woken by backed_up_event runs before another block completes'])
 
@@ -161,7 +162,11 @@ prop('C14', level='other', design_ref='DESIGN.md section 6 (C14)',
      bounded=[{'obligation': 'index.c14.bounded', 'driver': 'index_scenario.py', 'request': {'mode': 'c14', 'rounds': 24},
                'what': 'every history identical before/after compaction (one go, batches, killed and resumed, abandoned then '
                        'indexing/undoing on top; every third scenario: compact, index, compact again, index)',
-               'bound': '24 (thorough: 144) generated databases x row sizes {1,2,3,12500} x batch limits {1,30,200,8e6} x 6 modes'}],
+               'bound': '24 (thorough: 144) generated databases x row sizes {1,2,3,12500} x batch limits {1,30,200,8e6} x 6 modes'},
+              {'obligation': 'index.c14.killed-before-set-flush-count', 'driver': 'index_scenario.py',
+               'request': {'mode': 'c14-kf', 'rounds': 8}, 'expect_kf': 'KF-C14-1',
+               'what': 'probe of the listed known finding: compaction completed, killed before set_flush_count, one-entry rows',
+               'bound': '8 scenarios'}],
      not_decided=['_compact_hashX / _compact_prefix / _compact_history row re-chunking not under deductive contract'],
      assumptions=[])
 
@@ -179,7 +184,8 @@ prop('C01', level='other', design_ref='DESIGN.md section 6 (C01)',
                         'activation height, zero values, empty/duplicate scripts) x random flush schedule x chunk sizes; every sixth '
                         'scenario: two flushed outputs sharing the 4-byte compressed hash and the index (birthday search), same '
                         'or different script, spent in either order, with restarts'}],
-     not_decided=['advance_block, spend_utxo, flush_utxo_db not under deductive contract'], assumptions=[])
+     not_decided=['advance_block and spend_utxo (which rows are written / deleted) are not under deductive contract; the query side '
+                  '(read_utxos, lookup_utxo, lookup_hashX, fs_tx_hash) and the one-commit discipline of flush_utxo_db are'], assumptions=[])
 prop('C03', level='other', design_ref='DESIGN.md section 6 (C03)',
      technique='deductive verification of the reorg arithmetic/pointer functions + bounded native reorg scenarios with an '
                'independent oracle on a real LevelDB',
@@ -188,7 +194,8 @@ prop('C03', level='other', design_ref='DESIGN.md section 6 (C03)',
      bounded=[{'obligation': 'index.c03.bounded', 'driver': 'index_scenario.py', 'request': {'mode': 'c03', 'rounds': 10},
                'what': 'after 1-3 reorgs of depth 1-3 (forced/natural, back to back) every observable equals a fresh index; every script hash changed by an undone block is in the touched set',
                'bound': '10 (thorough: 60) generated chains of 6-13 blocks x random flush schedules'}],
-     not_decided=['backup_block, History.backup, flush_backup not under deductive contract'], assumptions=[])
+     not_decided=['backup_block and History.backup (content of the rollback) are not under deductive contract; the commit order of '
+                  'flush_backup, backup_fs and MerkleCache.truncate are'], assumptions=[])
 prop('C04', level='other', design_ref='DESIGN.md section 6 (C04)',
      technique='deductive verification of the commit discipline components (History.flush fresh ids, clear_excess scrubbing; VCs '
                'from real source, z3/cvc5) + bounded native crash injection at every durable write on a real LevelDB',
@@ -199,7 +206,8 @@ prop('C04', level='other', design_ref='DESIGN.md section 6 (C04)',
                'what': 'die at each durable write of a flush (3 file writes incl. torn prefixes, history batch, UTXO batch, second '
                        'state put), reopen, compare with the clean index at the reported height, resume, compare at the end',
                'bound': '16 (thorough: 96) generated chains x 8 crash points x history-only/full flush'}],
-     not_decided=['flush_dbs / flush_fs / flush_utxo_db crash obligations not generated deductively yet'], assumptions=[])
+     not_decided=['flush_dbs / flush_fs (order of file writes and commits) are not under deductive contract; History.flush, '
+                  'flush_utxo_db (one atomic commit each, state record inside) and clear_excess are'], assumptions=[])
 prop('C05', level='other', design_ref='DESIGN.md section 6 (C05)',
      technique='bounded native crash injection inside flush_backup on a real LevelDB + the deductive contracts of the recovery path '
                '(clear_excess, C14/C15 functions); the failing cut is a listed known finding',
@@ -209,8 +217,12 @@ prop('C05', level='other', design_ref='DESIGN.md section 6 (C05)',
      bounded=[{'obligation': 'index.c05.bounded', 'driver': 'index_scenario.py', 'request': {'mode': 'c05', 'rounds': 14},
                'what': 'die between/after the two commits of flush_backup; restart; catch up on the new branch / the old branch / '
                        'forced reorg of an unchanged chain; compare with a fresh index',
-               'bound': '14 (thorough: 84) generated chains x 2 cut points x 3 continuations'}],
-     not_decided=['flush_backup crash obligations not generated deductively'], assumptions=[])
+               'bound': '14 (thorough: 84) generated chains x 2 cut points x 3 continuations'},
+              {'obligation': 'index.c05.crash-between-history-and-utxo-rollback', 'driver': 'index_scenario.py',
+               'request': {'mode': 'c05-kf', 'rounds': 4}, 'expect_kf': 'KF-C05-1',
+               'what': 'probe of the listed known finding: crash between the two commits, daemon on the old branch / forced reorg',
+               'bound': '4 scenarios'}],
+     not_decided=['recovery after a crash inside flush_backup is not a deductive obligation (the commit order of flush_backup is)'], assumptions=[])
 
 _MP_NOTE = ('Trusted: daemon data well-formed (T-DAEMON). Exactness of the view (C08) and behaviour under races (C09) are decided by the '
             'bounded stand-in only; the deductive part is the index-consistency invariant and the no-raise/frame contracts.')
